@@ -128,7 +128,64 @@ def stepSwap (msg pw r1 r2 : Bytes) : String :=
     s!"{showB (decrypt C a pw) msg} {showB (decrypt C b pw) msg}"
   | _, _ => "eerr"
 
+/- seq enc <msg> <pw> <rnd>|op;…   seq key <scheme> <kb> <pw> <rnd>|…   seq file <scheme> <kb> <pw> <rnd>|…
+   op = d <pw2> | t <pw2> <mut>;  output `<len> <n>|o1;o2;…` -/
+def parseOp (pw : Bytes) (s : String) : Option SeqOp :=
+  match words s with
+  | ["d", p] => (pw2Of pw p).map .onBuf
+  | ["t", p, mu] =>
+    match pw2Of pw p, parseMut (mu.splitOn ":") with
+    | some p, some mu => some (.onCopy mu p)
+    | _, _ => none
+  | _ => none
+
+def parseOps (pw : Bytes) (s : String) : Option (List SeqOp) :=
+  (s.splitOn ";").mapM (parseOp pw)
+
+def stepSeq (hdr ops : String) : String :=
+  match words hdr with
+  | ["seq", "enc", msg, pw, rnd] =>
+    match ofHex? msg, ofHex? pw, ofHex? rnd with
+    | some msg, some pw, some rnd =>
+      match parseOps pw ops with
+      | some ops =>
+        let C := idealCrypto [⟨pw, rnd.take nonceSize, msg⟩]
+        match encrypt C rnd msg pw with
+        | .ok ct =>
+          let r := runOps (decrypt C) ct ops
+          s!"{shape ct rnd}|{";".intercalate (r.1.map (showB · msg))}"
+        | _ => "eerr"
+      | none => "bad-op"
+    | _, _, _ => "bad-op"
+  | ["seq", kind, s, kb, pw, rnd] =>
+    match parseScheme s, ofHex? kb, ofHex? pw, ofHex? rnd with
+    | some s, some kb, some pw, some rnd =>
+      match parseOps pw ops, newPrivateKey s kb with
+      | some ops, .ok pk =>
+        let C := idealCrypto [⟨pw, rnd.take nonceSize, pk.bytes⟩]
+        if kind = "key" then
+          match encryptPrivateKey C rnd pk pw with
+          | .ok ct =>
+            let r := runOps (fun d p => decryptPrivateKey C d p s.name) ct ops
+            s!"{shape ct rnd}|{";".intercalate (r.1.map (showK · pk))}"
+          | _ => "eerr"
+        else if kind = "file" then
+          match encryptToFile C rnd pk "pub" pw with
+          | .ok f =>
+            let r := runOps (fun d p => readFromFileAndDecrypt C (.parsed { f with ciphertext := d }) p)
+              f.ciphertext ops
+            s!"{shape f.ciphertext rnd}|{";".intercalate (r.1.map (showK · pk))}"
+          | _ => "eerr"
+        else "bad-op"
+      | some _, _ => "kerr"
+      | none, _ => "bad-op"
+    | _, _, _, _ => "bad-op"
+  | _ => "bad-op"
+
 def step (line : String) : String :=
+  match line.splitOn "|" with
+  | [hdr, ops] => stepSeq hdr ops
+  | _ =>
   match words line with
   | ["const"] => s!"{nonceSize} {tagSize}"
   | ["enc", msg, pw, pw2, rnd, mu] =>
